@@ -31,6 +31,10 @@ ARCH = {
     'armv6m': dict(file='ascon-asm-armv6m.S', defs=['-D__ARM_ARCH_ISA_THUMB=1', '-D__ARM_ARCH=6', '-D__ARM_ARCH_6M__'], cls='Arm32', bits=32, layout='sliced32le'),
     'm68k': dict(file='ascon-asm-m68k.S', defs=['-D__m68k__'], cls='M68k', bits=32, layout='sliced32be'),
     'xtensa': dict(file='ascon-asm-xtensa.S', defs=['-D__XTENSA__'], cls='Xtensa', bits=32, layout='word64le'),
+    'avr5': dict(file='src/core/ascon-asm-avr5.S', defs=['-DASCON_BACKEND_AVR5=1'], cls='Avr', bits=8, layout='bytes', entry='ascon_permute'),
+    'avr5-x2-ms2': dict(file='src/masking/ascon-x2-asm-avr5.S', defs=['-DASCON_MASKED_X2_BACKEND_AVR5=1', '-DASCON_MASKED_MAX_SHARES=2'], cls='Avr', bits=8, layout='bytes', entry='ascon_x2_permute', shares=2, maxshares=2),
+    'avr5-x2-ms3': dict(file='src/masking/ascon-x2-asm-avr5.S', defs=['-DASCON_MASKED_X2_BACKEND_AVR5=1', '-DASCON_MASKED_MAX_SHARES=3'], cls='Avr', bits=8, layout='bytes', entry='ascon_x2_permute', shares=2, maxshares=3),
+    'avr5-x3': dict(file='src/masking/ascon-x3-asm-avr5.S', defs=['-DASCON_MASKED_X3_BACKEND_AVR5=1', '-DASCON_MASKED_MAX_SHARES=3'], cls='Avr', bits=8, layout='bytes', entry='ascon_x3_permute', shares=3, maxshares=3),
     # the same files under the other preprocessor configurations they contain
     'm68k-coldfire': dict(file='ascon-asm-m68k.S', defs=['-D__m68k__', '-D__mcoldfire__'], cls='M68k', bits=32, layout='sliced32be'),
     'xtensa-windowed': dict(file='ascon-asm-xtensa.S', defs=['-D__XTENSA__', '-D__XTENSA_WINDOWED_ABI__'], cls='Xtensa', bits=32, layout='word64le'),
@@ -711,7 +715,250 @@ class Xtensa(Machine):
         return regs, 1 if self.ar[1] == self.STACK else 0
 
 
-CLASSES = {'RiscV': RiscV, 'A64': A64, 'Arm32': Arm32, 'M68k': M68k, 'Xtensa': Xtensa}
+
+# ------------------------------------------------------------------------------------------ AVR5 (whole function text)
+class Avr(Machine):
+    """executes the checked-in AVR5 text including prologue and epilogue (the generator's own interpreter, used
+    for the semantics in checks/c18.py, runs the instruction list of the body only).  avr-gcc convention:
+    arguments r25:r24, r23:r22, r21:r20; call-saved r2-r17, r28, r29; r1 = 0 at return; SP points at the next free
+    byte (push stores, then decrements).  Interrupts: while SREG.I is set an interrupt may arrive after any
+    instruction except the one following the instruction that set I; a handler pushes at SP, so SP must never
+    rise above its value at entry nor point into memory the function still reads (its locals)."""
+    caller_area = 2          # the return address pushed by the caller's call instruction
+
+    def __init__(self, arch):
+        self.arch = arch; self.a = ARCH[arch]
+        src = '%s/%s' % (REPO, self.a['file'])
+        text = ''.join(l for l in open(src).read().splitlines(True) if not l.startswith('#include'))
+        p = subprocess.run(['gcc', '-E', '-P', '-undef', '-x', 'assembler-with-cpp'] + self.a['defs'] + ['-'], input=text.encode(), stdout=subprocess.PIPE, stderr=subprocess.PIPE)
+        if p.returncode != 0: raise AsmError('preprocessing failed: ' + p.stderr.decode()[-300:])
+        self.ins, self.labels, self.data = [], {}, {}
+        self.numeric = {}          # numeric local labels: name -> list of instruction indices
+        for raw in p.stdout.decode().split('\n'):
+            line = raw.split(';')[0].strip()
+            if not line or '=' in line and line.startswith('.L'): continue
+            m = re.match(r'^(\d+):\s*(.*)$', line)
+            if m: self.numeric.setdefault(m.group(1), []).append(len(self.ins)); line = m.group(2).strip()
+            m = re.match(r'^([.\w$]+):\s*(.*)$', line)
+            if m: self.labels[m.group(1)] = len(self.ins); line = m.group(2).strip()
+            if not line or line.startswith('.'): continue
+            parts = line.split(None, 1)
+            self.ins.append((parts[0].lower(), split_ops(parts[1]) if len(parts) > 1 else [], raw.strip()))
+        self.entry = self.a['entry']
+        if self.entry not in self.labels: raise AsmError('no %s label in %s' % (self.entry, self.a['file']))
+
+    # registers / flags
+    def rn(self, s):
+        m = re.match(r'^r(\d+)$', s.strip().lower())
+        if not m or int(m.group(1)) > 31: raise AsmError('register ' + s)
+        return int(m.group(1))
+
+    def pair(self, lo): return self.r[lo] | (self.r[lo + 1] << 8)
+
+    def setpair(self, lo, v): self.r[lo] = v & 255; self.r[lo + 1] = (v >> 8) & 255
+
+    def cur_sp(self): return self.sp + 1        # the lowest address that holds something pushed
+
+    def flags_logic(self, v):
+        self.Z = v == 0; self.N = bool(v & 0x80); self.V = False
+
+    def mem_ld(self, addr): return self.ld(addr, 1)
+
+    def mem_st(self, addr, v): self.st(addr, 1, v)
+
+    def in_regions(self, addr): return any(lo <= addr < hi for lo, hi in self.regions)
+
+    def st(self, addr, n, val, big=False):
+        Machine.st(self, addr, n, val, big)
+        if hasattr(self, 'last_store'): self.last_store[addr] = self.now
+
+    def ld(self, addr, n, big=False):
+        v = Machine.ld(self, addr, n, big)
+        if hasattr(self, 'segs') and not self.in_regions(addr) and addr <= self.entry_sp:
+            # was there a moment after this byte was written at which an interrupt handler, pushing at the
+            # stack pointer of that moment, would have overwritten it?
+            t0 = self.last_store.get(addr, -1)
+            for k, (t, spv, tk) in enumerate(self.segs):
+                end = self.segs[k + 1][0] if k + 1 < len(self.segs) else self.now + 1
+                if tk and spv >= addr and end > t0 + 1: self.int_unsafe.append((addr, spv, t)); break
+        return v
+
+    def ptr(self, s, store):
+        """X, X+, -X, Y+q, Z+q ... -> address (with side effects on the pointer pair)"""
+        s = s.strip().upper().replace(' ', '')
+        base = {'X': 26, 'Y': 28, 'Z': 30}
+        m = re.match(r'^([XYZ])\+$', s)
+        if m: a = self.pair(base[m.group(1)]); self.setpair(base[m.group(1)], (a + 1) & 0xffff); return a
+        m = re.match(r'^-([XYZ])$', s)
+        if m: a = (self.pair(base[m.group(1)]) - 1) & 0xffff; self.setpair(base[m.group(1)], a); return a
+        m = re.match(r'^([XYZ])(?:\+(\d+))?$', s)
+        if m:
+            q = int(m.group(2) or 0)
+            if q > 63: raise AsmError('displacement ' + s)
+            return (self.pair(base[m.group(1)]) + q) & 0xffff
+        raise AsmError('pointer operand ' + s)
+
+    def setup_call(self, args, dirty=0):
+        self.r = [(0x40 + 7 * i) & 255 for i in range(32)]
+        self.r[1] = 0
+        for k, v in enumerate(args): self.setpair(24 - 2 * k, v)
+        if dirty: self.r[23] = dirty & 255            # the byte above an 8-bit argument is unspecified
+        self.sp = self.SP0
+        # the caller's call pushed the return address
+        self.mem[self.sp] = 0x34; self.mem[self.sp - 1] = 0x12; self.sp -= 2
+        self.C = self.Z = self.N = self.V = self.H = self.T = False; self.I = True
+        self.saved0 = list(self.r); self.entry_sp = self.sp
+        self.STACK = self.sp + 1; self.int_delay = False; self.sp_bad = []; self.sreg_i_entry = self.I
+
+    def run_call(self, args, dirty=0, max_steps=400000):
+        self.bad_access = []; self.setting_up = False; self.loads = []; self.stores = []
+        self.setup_call(args, dirty)
+        pc = self.labels[self.entry]; steps = 0; self.done = False
+        self.now = 0; self.last_store = {}; self.segs = [(0, self.sp, True)]; self.int_unsafe = []
+        while not self.done:
+            if pc >= len(self.ins): raise AsmError('ran off the end')
+            mn, ops, raw = self.ins[pc]
+            i_before = self.I
+            npc = self.step(mn, ops, raw, pc)
+            pc = pc + 1 if npc is None else npc
+            steps += 1
+            if steps > max_steps: raise AsmError('no termination')
+            # an interrupt could be taken here?
+            self.now = steps
+            takeable = self.I and i_before and not self.done
+            if takeable and self.sp > self.entry_sp: self.sp_bad.append((raw, self.sp))
+            if (self.sp, takeable) != (self.segs[-1][1], self.segs[-1][2]): self.segs.append((steps, self.sp, takeable))
+        return steps
+
+    def step(self, mn, o, raw, pc):
+        R = self.r
+        if mn == 'eor': d = self.rn(o[0]); R[d] ^= R[self.rn(o[1])]; self.flags_logic(R[d])
+        elif mn == 'and': d = self.rn(o[0]); R[d] &= R[self.rn(o[1])]; self.flags_logic(R[d])
+        elif mn == 'or': d = self.rn(o[0]); R[d] |= R[self.rn(o[1])]; self.flags_logic(R[d])
+        elif mn == 'com': d = self.rn(o[0]); R[d] ^= 0xff; self.flags_logic(R[d]); self.C = True
+        elif mn == 'mov': R[self.rn(o[0])] = R[self.rn(o[1])]
+        elif mn == 'movw':
+            d, r = self.rn(o[0]), self.rn(o[1])
+            if d % 2 or r % 2: raise AsmError('movw needs even registers: ' + raw)
+            R[d], R[d + 1] = R[r], R[r + 1]
+        elif mn == 'ldi':
+            d = self.rn(o[0])
+            if d < 16: raise AsmError('ldi needs r16-r31: ' + raw)
+            R[d] = int(o[1], 0) & 255
+        elif mn in ('lsl', 'rol'):
+            d = self.rn(o[0]); c = self.C if mn == 'rol' else False
+            v = (R[d] << 1) | (1 if c else 0); self.C = bool(v & 0x100); R[d] = v & 255; self.Z = R[d] == 0; self.N = bool(R[d] & 0x80)
+        elif mn in ('lsr', 'ror'):
+            d = self.rn(o[0]); c = self.C if mn == 'ror' else False
+            self.C = bool(R[d] & 1); R[d] = (R[d] >> 1) | (0x80 if c else 0); self.Z = R[d] == 0; self.N = bool(R[d] & 0x80)
+        elif mn == 'swap': d = self.rn(o[0]); R[d] = ((R[d] << 4) | (R[d] >> 4)) & 255
+        elif mn in ('sub', 'sbc', 'subi', 'sbci'):
+            d = self.rn(o[0])
+            if mn in ('subi', 'sbci') and d < 16: raise AsmError('immediate needs r16-r31: ' + raw)
+            k = (int(o[1], 0) & 255) if mn in ('subi', 'sbci') else R[self.rn(o[1])]
+            c = 1 if (mn in ('sbc', 'sbci') and self.C) else 0
+            v = R[d] - k - c; self.C = v < 0; v &= 255
+            self.Z = (v == 0) and (self.Z if mn in ('sbc', 'sbci') else True); R[d] = v; self.N = bool(v & 0x80)
+        elif mn == 'adc':
+            d = self.rn(o[0]); v = R[d] + R[self.rn(o[1])] + (1 if self.C else 0); self.C = v > 255; R[d] = v & 255; self.Z = R[d] == 0
+        elif mn in ('adiw', 'sbiw'):
+            d = self.rn(o[0]); k = int(o[1], 0)
+            if d not in (24, 26, 28, 30) or not 0 <= k <= 63: raise AsmError('adiw/sbiw operand: ' + raw)
+            v = self.pair(d) + (k if mn == 'adiw' else -k); self.C = v < 0 or v > 0xffff; self.setpair(d, v & 0xffff); self.Z = (v & 0xffff) == 0
+        elif mn == 'bst': self.T = bool(R[self.rn(o[0])] & (1 << int(o[1], 0)))
+        elif mn == 'bld':
+            d = self.rn(o[0]); b = 1 << int(o[1], 0); R[d] = (R[d] | b) if self.T else (R[d] & ~b & 255)
+        elif mn == 'cpse':
+            if R[self.rn(o[0])] == R[self.rn(o[1])]: return pc + 2
+        elif mn == 'rjmp':
+            m = re.match(r'^(\d+)([bf])$', o[0].strip())
+            if m:
+                cand = self.numeric.get(m.group(1), [])
+                t = [x for x in cand if x <= pc] if m.group(2) == 'b' else [x for x in cand if x > pc]
+                if not t: raise AsmError('label ' + o[0])
+                return t[-1] if m.group(2) == 'b' else t[0]
+            return self.target(o[0])
+        elif mn in ('ld', 'ldd'): d = self.rn(o[0]); a = self.ptr(o[1], False); R[d] = self.mem_ld(a)
+        elif mn in ('st', 'std'): a = self.ptr(o[0], True); self.mem_st(a, R[self.rn(o[1])])
+        elif mn == 'push': a = self.sp; self.sp = (self.sp - 1) & 0xffff; self.st(a, 1, R[self.rn(o[0])])
+        elif mn == 'pop': a = (self.sp + 1) & 0xffff; R[self.rn(o[0])] = self.ld(a, 1); self.sp = a
+        elif mn == 'in':
+            a = int(o[1], 0); d = self.rn(o[0])
+            if a == 0x3d: R[d] = self.sp & 255
+            elif a == 0x3e: R[d] = self.sp >> 8
+            elif a == 0x3f: R[d] = (0x80 if self.I else 0) | (0x40 if self.T else 0) | (1 if self.C else 0) | (2 if self.Z else 0)
+            else: raise AsmError('in from I/O address 0x%x' % a)
+        elif mn == 'out':
+            a = int(o[0], 0); v = R[self.rn(o[1])]
+            if a == 0x3d: self.sp = (self.sp & 0xff00) | v
+            elif a == 0x3e: self.sp = (self.sp & 0xff) | (v << 8)
+            elif a == 0x3f: self.I = bool(v & 0x80); self.T = bool(v & 0x40); self.C = bool(v & 1); self.Z = bool(v & 2)
+            else: raise AsmError('out to I/O address 0x%x' % a)
+        elif mn == 'cli': self.I = False
+        elif mn == 'sei': self.I = True
+        elif mn == 'ret':
+            self.ret_to = (self.ld(self.sp + 1, 1) << 8) | self.ld(self.sp + 2, 1)
+            self.sp = (self.sp + 2) & 0xffff
+            self.done = True
+        else: raise AsmError('unsupported AVR instruction: ' + raw)
+        return None
+
+    # Machine.owned() for a descending byte stack: frame = (sp, entry_sp] plus the return address above it
+    def owned(self, addr, n, store):
+        for lo, hi in self.regions:
+            if lo <= addr and addr + n <= hi: return True
+        return self.sp < addr and addr + n <= self.entry_sp + 1 + (self.caller_area if not store else 0)
+
+    def check_abi(self):
+        regs = 1
+        for i in list(range(2, 18)) + [28, 29]:
+            if self.r[i] != self.saved0[i]: regs = 0
+        if self.r[1] != 0: regs = 0
+        if getattr(self, 'ret_to', 0) != 0x1234: regs = 0
+        if self.I != self.sreg_i_entry: regs = 0
+        sp = 1 if (self.sp == self.SP0 and not self.sp_bad and not self.int_unsafe) else 0
+        return regs, sp
+
+    def run(self, st, first_round, dirty=0):
+        """plain permutation: 40 canonical bytes at STATE (direct-XOR layout)"""
+        self.mem = {}
+        for i, b in enumerate(st): self.mem[self.STATE + i] = b
+        self.regions = [(self.STATE, self.STATE + 40)]
+        steps = self.run_call([self.STATE, first_round], dirty)
+        regs, sp = self.check_abi()
+        return dict(out=bytes(self.mem.get(self.STATE + i, 0) for i in range(40)), regs=regs, sp=sp, guard=0 if self.bad_access else 1, steps=steps, bad=self.bad_access[:4])
+
+    def run_masked(self, st, first_round, rng, sp0=None):
+        """masked permutation on the direct (byte-wise XOR) share layout of the AVR build: word w, share k, byte j at
+        STATE + (w * MAX_SHARES + k) * 8 + j, value = XOR of the shares; `preserve` = nshares - 1 random words"""
+        ns, ms = self.a['shares'], self.a['maxshares']
+        self.mem = {}
+        if sp0 is not None: self.SP0 = sp0
+        size = 5 * ms * 8
+        for w in range(5):
+            acc = bytearray(st[8 * w: 8 * w + 8])
+            for k in range(1, ns):
+                sh = bytes(rng.randrange(256) for _ in range(8))
+                for j in range(8): self.mem[self.STATE + (w * ms + k) * 8 + j] = sh[j]; acc[j] ^= sh[j]
+            for j in range(8): self.mem[self.STATE + (w * ms) * 8 + j] = acc[j]
+            for k in range(ns, ms):          # share slots the word does not define
+                for j in range(8): self.mem[self.STATE + (w * ms + k) * 8 + j] = 0xC9
+        PRES = self.STATE + 0x200
+        for j in range(8 * (ns - 1)): self.mem[PRES + j] = rng.randrange(256)
+        self.regions = [(self.STATE, self.STATE + size), (PRES, PRES + 8 * (ns - 1))]
+        steps = self.run_call([self.STATE, first_round, PRES], dirty=0x5a)
+        regs, sp = self.check_abi()
+        out = bytearray(40)
+        for w in range(5):
+            for k in range(ns):
+                for j in range(8): out[8 * w + j] ^= self.mem.get(self.STATE + (w * ms + k) * 8 + j, 0)
+        untouched = all(self.mem.get(self.STATE + (w * ms + k) * 8 + j) == 0xC9 for w in range(5) for k in range(ns, ms) for j in range(8))
+        return dict(out=bytes(out), regs=regs, sp=sp, guard=0 if (self.bad_access or not untouched) else 1, steps=steps, bad=self.bad_access[:4], sp_bad=self.sp_bad[:3], int_unsafe=self.int_unsafe[:3])
+
+    SP0 = 0x08ff
+    STATE = 0x0300         # 16-bit data address space
+
+CLASSES = {'Avr': Avr, 'RiscV': RiscV, 'A64': A64, 'Arm32': Arm32, 'M68k': M68k, 'Xtensa': Xtensa}
 _machines = {}
 
 
@@ -728,12 +975,16 @@ def events(c, ev, sts, arches=None):
         try:
             m = machine(arch)
             # AAPCS64 leaves bits 8.. of a uint8_t argument register unspecified: feed dirt there
-            dirty = 0xa5c3 if arch in ('armv8a',) else 0
+            dirty = 0xa5c3 if arch in ('armv8a', 'avr5') else 0
             if '-' in arch: sts_a = sts[:2]        # a second preprocessor configuration of a file already run in full
             else: sts_a = sts
             for si, s in enumerate(sts_a):
                 for r in range(12):
-                    res = m.run(s, r, dirty if si % 2 else 0)
+                    if 'shares' in ARCH[arch]:
+                        # stack placements that do and do not make the frame straddle a 256-byte page
+                        res = m.run_masked(s, r, c.rng, sp0=(0x08ff, 0x0920, 0x0918, 0x0930)[(si + r) % 4])
+                    else:
+                        res = m.run(s, r, dirty if si % 2 else 0)
                     ev.append({'e': 'asm.permute', 'arch': arch, 'fn': 'permute', 'r': r, 'in': list(s), 'out': list(res['out']),
                                'regs': res['regs'], 'sp': res['sp'], 'guard': res['guard']})
                     c.distinct([(arch, r, s)])
